@@ -30,6 +30,12 @@ local macro "xs" "[" ts:Lean.Parser.Tactic.simpLemma,* "]" : tactic =>
   `(tactic| simp [exec, atom, evB, evI, look, lookup, lookupC, lookupL, consts, store, WidExec.bind, bindC, bindE, WidExec.ok, fieldOf,
       seqOf, fn_v1, fn_v2, fn_v4, fn_v5, fn_v7, fn_index, fn_offset, fn_items, fn_Offset, fn_width, $ts,*])
 
+/-- The expected bodies, parsed. -/
+def expB : Bodies :=
+  ⟨seqOf lminParts, seqOf lmaxParts, seqOf lnewParts, seqOf lindexParts, seqOf ldrawParts, seqOf ldownParts, seqOf lupParts, seqOf lhomeParts,
+   seqOf lendParts, seqOf lpgdnParts, seqOf lpgupParts, seqOf lsetParts, seqOf pdrawParts, seqOf playParts, seqOf pdownParts,
+   seqOf pupParts, seqOf lappParts, seqOf bdrawParts⟩
+
 /-- A `range` loop ends normally or with a `return`. -/
 theorem rangeE_not_cont (k v : String) (body : M → Res) (es : List Elem) : ∀ (i : Nat) (m m' : M),
     rangeE k v body es i m ≠ .ok (m', .cont) := by
@@ -90,7 +96,7 @@ def RInv (φ : List (String × Int)) (win : Win) (rows : List SimpleList.Row) (w
   | .error _ => False
 
 /-- One iteration of the inner loop = `Pager.layoutStep`. -/
-theorem play_step (R : Ro) (f : Nat) (φ : List (String × Int)) (win : Win) (rows : List SimpleList.Row) (width : Int)
+theorem play_step (R : Ro) (hcall : R.call "line.append" = some (appendCallee expB)) (f : Nat) (φ : List (String × Int)) (win : Win) (rows : List SimpleList.Row) (width : Int)
     (st : LState) (m : M) (i : Nat) (c : Ch) (h : MInv φ win rows width st m) :
     RInv φ win rows width (layoutStep width st c) (exec R playInner f (bindE (WidExec.bind m "_" (i : Int)) "v3" (.ch c))) := by
   obtain ⟨φ', ρ, χ, ls, L, lv, C, sh, win', rows'⟩ := m
@@ -102,17 +108,17 @@ theorem play_step (R : Ro) (f : Nat) (φ : List (String × Int)) (win : Win) (ro
   by_cases hn : c.isNl = true
   · xs [playInner, layoutStep, hn, hw, hc, RInv, MInv]
   · by_cases hge : col + c.width ≥ width
-    · xs [playInner, layoutStep, hn, hw, hc, hge, RInv, MInv]
-    · xs [playInner, layoutStep, hn, hw, hc, hge, RInv, MInv]
+    · xs [playInner, layoutStep, hn, hw, hc, hge, RInv, MInv, hcall, appendCallee, expB, lappParts, lapp0]
+    · xs [playInner, layoutStep, hn, hw, hc, hge, RInv, MInv, hcall, appendCallee, expB, lappParts, lapp0]
 
-theorem play_inner_loop (R : Ro) (f : Nat) (φ : List (String × Int)) (win : Win) (rows : List SimpleList.Row) (width : Int)
+theorem play_inner_loop (R : Ro) (hcall : R.call "line.append" = some (appendCallee expB)) (f : Nat) (φ : List (String × Int)) (win : Win) (rows : List SimpleList.Row) (width : Int)
     (cs : List Ch) : ∀ (st : LState) (m : M) (i : Nat), MInv φ win rows width st m →
       RInv φ win rows width (layoutLoop width st cs) (rangeE "_" "v3" (exec R playInner f) (cs.map .ch) i m) := by
   induction cs with
   | nil => intro st m i h; exact ⟨Or.inl rfl, h⟩
   | cons c cs ih =>
     intro st m i h
-    have hs := play_step R f φ win rows width st m i c h
+    have hs := play_step R hcall f φ win rows width st m i c h
     simp only [List.map_cons, rangeE, layoutLoop, List.foldl_cons]
     revert hs
     generalize exec R playInner f (bindE (WidExec.bind m "_" (i : Int)) "v3" (Elem.ch c)) = r
@@ -133,11 +139,11 @@ theorem play3_run (R : Ro) (f : Nat) (m : M) :
     exec R play3 f m = rangeE "_" "v2" (exec R playOuter f) (R.segs.map .seg) 0 m := by
   simp [play3_eq, exec, collOf]
 
-theorem play_outer_step (R : Ro) (f : Nat) (φ : List (String × Int)) (win : Win) (rows : List SimpleList.Row) (width : Int)
+theorem play_outer_step (R : Ro) (hcall : R.call "line.append" = some (appendCallee expB)) (f : Nat) (φ : List (String × Int)) (win : Win) (rows : List SimpleList.Row) (width : Int)
     (st : LState) (m : M) (i : Nat) (cs : List Ch) (h : MInv φ win rows width st m) :
     RInv φ win rows width (layoutLoop width st cs) (exec R playOuter f (bindE (WidExec.bind m "_" (i : Int)) "v2" (.seg cs))) := by
   have hm : MInv φ win rows width st { m with ls := ("v2.Text", cs) :: m.ls } := h
-  have hl := play_inner_loop R f φ win rows width cs st { m with ls := ("v2.Text", cs) :: m.ls } 0 hm
+  have hl := play_inner_loop R hcall f φ win rows width cs st { m with ls := ("v2.Text", cs) :: m.ls } 0 hm
   simp only [playOuter, exec, collOf, bindE, WidExec.bind, lookupL]
   simp only [show (("_" : String) = "_") = True from by simp, if_true, show ("v2" ++ ".Text" : String) = "v2.Text" from by decide, if_true]
   revert hl
@@ -154,14 +160,14 @@ theorem layoutLoop_append (width : Int) (st : LState) (a b : List Ch) :
     layoutLoop width st (a ++ b) = layoutLoop width (layoutLoop width st a) b := by
   simp [layoutLoop, List.foldl_append]
 
-theorem play_outer_loop (R : Ro) (f : Nat) (φ : List (String × Int)) (win : Win) (rows : List SimpleList.Row) (width : Int)
+theorem play_outer_loop (R : Ro) (hcall : R.call "line.append" = some (appendCallee expB)) (f : Nat) (φ : List (String × Int)) (win : Win) (rows : List SimpleList.Row) (width : Int)
     (segs : List (List Ch)) : ∀ (st : LState) (m : M) (i : Nat), MInv φ win rows width st m →
       RInv φ win rows width (layoutLoop width st segs.flatten) (rangeE "_" "v2" (exec R playOuter f) (segs.map .seg) i m) := by
   induction segs with
   | nil => intro st m i h; exact ⟨Or.inl rfl, h⟩
   | cons cs segs ih =>
     intro st m i h
-    have hs := play_outer_step R f φ win rows width st m i cs h
+    have hs := play_outer_step R hcall f φ win rows width st m i cs h
     simp only [List.map_cons, rangeE, List.flatten_cons, layoutLoop_append]
     revert hs
     generalize exec R playOuter f (bindE (WidExec.bind m "_" (i : Int)) "v2" (Elem.seg cs)) = r
@@ -180,7 +186,7 @@ def LayRes (m : M) (lines : List PLine) : Res → Prop
 
 /-- `Layout()` executed from its body = `Pager.layout` (with the final flush) at the width stored in `d.width`, on the
     characters of all segments. -/
-theorem play_exec (R : Ro) (f : Nat) (m : M) (width : Int) (hρ : m.ρ = [])
+theorem play_exec (R : Ro) (hcall : R.call "line.append" = some (appendCallee expB)) (f : Nat) (m : M) (width : Int) (hρ : m.ρ = [])
     (hw : lookup (m.φ ++ consts) "d.width" = some width) :
     LayRes m (Pager.layout true width R.segs.flatten) (exec R (seqOf playParts) f m) := by
   obtain ⟨φ, ρ, χ, ls, L, lv, C, sh, win, rows⟩ := m
@@ -190,7 +196,7 @@ theorem play_exec (R : Ro) (f : Nat) (m : M) (width : Int) (hρ : m.ρ = [])
     refine ⟨rfl, rfl, rfl, rfl, rfl, rfl, rfl, ?_, ?_⟩
     · simpa [lookup] using hw
     · simp [lookup]
-  have hl := play_outer_loop R f φ win rows width R.segs ⟨[], [], 0⟩ _ 0 h0
+  have hl := play_outer_loop R hcall f φ win rows width R.segs ⟨[], [], 0⟩ _ 0 h0
   simp only [seqOf, playParts, exec, play3_run]
   simp [play0, play1, play2, exec, atom, WidExec.ok, evI, WidExec.bind]
   revert hl
@@ -551,12 +557,6 @@ theorem pdraw_rest (R : Ro) (f : Nat) (φ : List (String × Int)) (χ : List (St
         · simpa [lookup] using ho
         · simpa [lookup] using hwd
 
-/-- The expected bodies, parsed. -/
-def expB : Bodies :=
-  ⟨seqOf lminParts, seqOf lmaxParts, seqOf lnewParts, seqOf lindexParts, seqOf ldrawParts, seqOf ldownParts, seqOf lupParts, seqOf lhomeParts,
-   seqOf lendParts, seqOf lpgdnParts, seqOf lpgupParts, seqOf lsetParts, seqOf pdrawParts, seqOf playParts, seqOf pdownParts,
-   seqOf pupParts, seqOf bdrawParts⟩
-
 theorem pdrawParts_split : seqOf pdrawParts = .seq pdraw0 (.seq pdraw1 (seqOf [pdraw2, pdraw3, pdraw4, pdraw5, pdraw6])) := rfl
 
 /-- The lines after the re-layout at the top of `Draw`. -/
@@ -585,15 +585,16 @@ theorem pdraw_key (segs : List (List Ch)) (s : Pager.St) (w h : Nat) (fe : Bool)
     · simp [lookupC]
   · have hr : relaid ⟨text, lines, offset, width⟩ w = Pager.layout true w text := by simp [relaid, hw]
     rw [hr]
-    have hl := play_exec ⟨0, 0, segs, noCall⟩ 0
+    have hl := play_exec ⟨0, 0, segs, lineCalls expB⟩ rfl 0
       ⟨[("d.width", (w : Int)), ("d.Offset", offset), ("d.width", width)], [],
        [("d.Fill.Grapheme", if fe = true then ⟨[], 0⟩ else fillCh), ("defaultFill", fillCh)], [], lines, "", [], [], blank w h, []⟩
       (w : Int) rfl (by simp [lookup])
     simp only [exec, pdraw0, pdraw1, atom, evB, evI, look, WidExec.bind, WidExec.ok, pagerM, pagerRo, m0, consts]
-    simp [lookup, lookupC, hw, store, fn_width, layoutCallee, expB]
+    have hpl : expB.pagerLayout = seqOf playParts := rfl
+    simp [lookup, lookupC, hw, store, fn_width, layoutCallee, hpl]
     revert hl
     simp only [ht]
-    generalize exec ⟨0, 0, segs, noCall⟩ (seqOf playParts) 0
+    generalize exec ⟨0, 0, segs, lineCalls expB⟩ (seqOf playParts) 0
       ⟨[("d.width", (w : Int)), ("d.Offset", offset), ("d.width", width)], [],
        [("d.Fill.Grapheme", if fe = true then ⟨[], 0⟩ else fillCh), ("defaultFill", fillCh)], [], lines, "", [], [], blank w h, []⟩ = r
     intro hl
